@@ -158,13 +158,25 @@ class FormatMachine(MachineBase):
         """Format specific checks on every text that is written (C17...)."""
         return None
 
+    def arg(self, path):
+        """the path as it is HANDED to productmd: in a run with a current directory, files below it are addressed
+        relatively (bare name, ./name, or dir/../name), the way a tool started inside the compose tree does"""
+        cwd = self.cfg.get("cwd")
+        if not cwd or not isinstance(path, str) or not path.startswith(cwd.rstrip("/") + "/"):
+            return path
+        rel = path[len(cwd.rstrip("/")) + 1:]
+        form = self.cfg.get("rel_form", "bare")
+        if form == "dot":
+            return "./" + rel
+        return rel
+
     def do_dump(self, slot, target, op):
-        slot.obj.dump(target)
+        slot.obj.dump(self.arg(target))
 
     def dump_via_handle(self, s, path, op):
         """dump(f) with f an open file object (the other documented kind of destination)"""
         with open(path, "w") as fo:
-            self.do_dump(s, fo, op)
+            self.do_dump(s, fo, op)       # (a handle, not a path: arg() leaves it alone)
 
     # ---- helpers ------------------------------------------------------------
     def slot(self, op):
@@ -439,7 +451,7 @@ class FormatMachine(MachineBase):
         elif via == "loads":
             new.loads(self.fs.get(path).decode("utf-8"))
         else:
-            new.load(path)
+            new.load(self.arg(path))
         return new
 
     def junk_document(self, kind):
@@ -570,8 +582,11 @@ class FormatMachine(MachineBase):
             if diff:
                 raise Violation(P, "%s.upgrade_carries_same_facts" % P, "upgrade-differs/%s/%s" % (key, diff_key(diff)),
                                 {"diff": diff, "via": via})
-        for part, want in (d.get("partial") or {}).items():
-            diff = first_diff(want, got.get(part))
+        for part, want in sorted((d.get("partial") or {}).items()):
+            have = got
+            for k in part.split("/"):
+                have = have.get(k) if isinstance(have, dict) else None
+            diff = first_diff(want, have)
             if diff:
                 P2 = "C16" if (part == "checksums" and self.cfg.get("focus") == "C16") else P
                 raise Violation(P2, "%s.upgrade_carries_same_facts" % P2, "upgrade-differs/%s/%s/%s" % (key, part, diff_key(diff)),
